@@ -383,6 +383,26 @@ def run_poll(prop, spec, loop_seed):
             for name, val in (('is_idle', idle), ('is_scheduled', sch), ('is_running', runn), ('is_done', done)):
                 if val is not True and val is not False:
                     out.violation('not-a-bool', "%s: %s() returned %r" % (where, name, val))
+            if (ret or rai) and not hasattr(job, 'jobs'):
+                # "a cancelled job is never reported done": the bodies of this
+                # workload (and the library's PrintJob) always pass a cancellation
+                # on; one that was interrupted by a cancel request and yet ends
+                # normally in a LATER instant has had its cancellation swallowed
+                # somewhere between the scheduler and the body
+                end_ev = ret or rai
+                creq = next((e for e in trace.events if e['who'] == vid and e['kind'] == 'task_cancel'), None)
+                if creq is not None and ent and ent['seq'] < creq['seq'] < end_ev['seq'] and end_ev['t'] > creq['t']:
+                    out.violation('done-after-cancel', "%s: cancel request at t=%s while the body was executing, yet "
+                                  "the job ends normally at t=%s and is reported done=%r"
+                                  % (where, creq['t'], end_ev['t'], done))
+                elif creq is not None and ret and ent and getattr(job, 'spec', {}).get('print') \
+                        and ent['seq'] < creq['seq'] < ret['seq'] and ret['t'] < ent['t'] + (job.spec.get('dur') or 0):
+                    # the library's own PrintJob: its nominal end is known
+                    out.violation('done-after-cancel', "%s: PrintJob entered at t=%s with sleep=%s was sent a cancel "
+                                  "request at t=%s, ended at once and is reported done=%r"
+                                  % (where, ent['t'], job.spec.get('dur'), creq['t'], done))
+                elif creq is not None:
+                    out.count('cancel requests in the instant of a normal end (tie)')
             if ret:
                 try:
                     res = job.result()
